@@ -31,7 +31,13 @@ RULE = ('script trees: 1..8 directories (depth <= 5, names incl. blanks, dots, a
         'Sibling projects: a near-prefix family of directory names (app/apputil, lib/lib64, a/ab ...) plus a control name, '
         'optionally below 1-2 parents; 1-3 scripted directories compiling own files and siblings\' files through ../ as '
         'executable/library (default intermediate directory or intermediate_dir=), object_file(directory=), '
-        'copy_file(directory=).')
+        'copy_file(directory=). '
+        'Configure-time values: real configure -> regeneration histories (a .bfg file or the toolchain file modified, then make; '
+        'bfg9000 regenerate plain and --lazy; 2-3 events) of a C project that installs a program, a library, a header, a man '
+        'page and a data file, configured with an optional toolchain file (install_dirs for 0-3 directories, environ, '
+        'compile/link options), 0-4 installation directories on the command line (mostly overlapping with the toolchain '
+        'file), --enable-static/--disable-shared/--disable-compdb and project-defined arguments in both spellings; '
+        'non-trivial when the toolchain file and the command line both give installation directories.')
 TRUSTED = ('Python semantics of exec / name lookup beyond globals-then-builtins; argparse (only the registration, '
            'defaults and long-option parsing fragment is modelled, checked against the real parser each run)',
            'os.path.expanduser modelled as the identity (no generated path starts with a tilde of an existing user)',
@@ -1239,6 +1245,213 @@ def stage_persist(rep, rng, n):
     return bad
 
 
+# -------------------------------------------------------------------- configure-time values across real regenerations
+INSTALL_KEYS = ['prefix', 'exec_prefix', 'bindir', 'libdir', 'includedir', 'datadir', 'mandir']
+PC_OPTS = "argument('name', default='dflt')\nargument('fast', action='enable')\nargument('zlib', action='with')\nargument('level')\n"
+PC_BUILD = ("project('pc', version='1.0')\n"
+            "print('@@C19', sorted(vars(argv).items()))\n"
+            "exe = executable('prog', ['prog.c'])\n"
+            "lib = library('lb', ['lb.c'])\n"
+            "install(exe, lib, header_file('inc.h'), man_page('pc.1', level=1))\n"
+            "install(generic_file('d.txt'), directory=Path('pkg', InstallRoot.datadir))\n")
+PC_FILES = {'prog.c': 'int main(void) { return 0; }\n', 'lb.c': 'int f(void) { return 0; }\n', 'inc.h': '', 'pc.1': '',
+            'd.txt': 'data\n'}
+PC_STEPS = ['touch-build', 'touch-options', 'touch-toolchain', 'regenerate', 'regenerate-lazy']
+
+
+def gen_persist_case(rng, rep):
+    """One configure -> regeneration history: an optional toolchain file (install_dirs for 0-3 directories, environ,
+    compile/link options), installation directories on the command line (0-3, in more than half of the cases overlapping
+    with what the toolchain file proposes), other built-in configure options, project-defined arguments in the plain and
+    the --x- spelling, and 2-3 later events (a .bfg file or the toolchain file modified followed by make; bfg9000
+    regenerate by hand, plain and --lazy)."""
+    def dirval(tag, k):
+        if k in ('prefix', 'exec_prefix'):
+            return '/opt/%s-%s' % (tag, k)
+        return '/opt/%s%s/%s' % (tag, rng.choice(['', '', ' d']), k)
+    tc = None
+    if rng.random() < 0.8:
+        tk = rng.sample(INSTALL_KEYS, rng.choice([0, 1, 1, 2, 3]))
+        tc = {'install_dirs': {k: dirval('tc', k) for k in tk},
+              'environ': rng.choice([{}, {'PC_VAR': 'from toolchain'}]),
+              'compile_options': rng.choice([None, ['-O1', '-DTC=1'], ['-DMSG=a b']]),
+              'link_options': rng.choice([None, None, ['-Wl,--as-needed']])}
+    ck = rng.sample(INSTALL_KEYS, rng.choice([0, 1, 1, 2, 3]))
+    if tc and tc['install_dirs'] and rng.random() < 0.6:
+        k = rng.choice(sorted(tc['install_dirs']))
+        if k not in ck:
+            ck.append(k)
+    cmd_dirs = {k: dirval('cmd', k) for k in ck}
+    builtin_args = rng.choice([[], [], ['--enable-static'], ['--disable-shared', '--enable-static'], ['--disable-compdb']])
+    val = rng.choice(['Bob', 'a b', "it's", '$x', 'é', ''])
+    user_args = rng.choice([[], ['--name=' + val, '--x-enable-fast'], ['--x-name=' + val, '--disable-fast', '--with-zlib'],
+                            ['--x-level', val or 'q', '--x-without-zlib']])
+    steps = [rng.choice(PC_STEPS) for _ in range(rng.choice([2, 2, 3]))]
+    if tc is None:
+        steps = [s if s != 'touch-toolchain' else 'touch-build' for s in steps]
+    for k in ('toolchain' if tc else 'no-toolchain', 'tc-dirs%d' % len(tc['install_dirs']) if tc else None,
+              'cmd-dirs%d' % len(cmd_dirs), 'overlap' if tc and set(cmd_dirs) & set(tc['install_dirs']) else None,
+              'user-args' if user_args else None, 'builtin-args' if builtin_args else None):
+        if k:
+            rep.count('persist:' + k)
+    return {'kind': 'persist-config', 'toolchain': tc, 'cmd_dirs': cmd_dirs, 'builtin_args': builtin_args,
+            'user_args': user_args, 'steps': steps}
+
+
+def toolchain_text(tc):
+    out = []
+    if tc['install_dirs']:
+        out.append('install_dirs(%s)' % ', '.join('%s=%r' % kv for kv in sorted(tc['install_dirs'].items())))
+    for k, v in sorted(tc['environ'].items()):
+        out.append('environ[%r] = %r' % (k, v))
+    if tc['compile_options']:
+        out.append("compile_options(%r, 'c')" % (tc['compile_options'],))
+    if tc['link_options']:
+        out.append('link_options(%r)' % (tc['link_options'],))
+    return '\n'.join(out) + '\n'
+
+
+def observe_config(bld, env):
+    """What the build files of bld do with the configuration: the install-directory variables of the Makefile, what
+    `make -n install` copies where, the flags variables, and the whole Makefile text."""
+    mk = open(os.path.join(bld, 'Makefile'), encoding='utf-8', errors='replace').read()
+    obs = {'dirs': {}, 'flags': {}}
+    for l in mk.split('\n'):
+        m = re.match(r'^(\w+) := (.*)$', l)
+        if m and m.group(1) in INSTALL_KEYS:
+            obs['dirs'][m.group(1)] = m.group(2)
+        elif m and re.search(r'FLAGS|LIBS', m.group(1)):
+            obs['flags'][m.group(1)] = m.group(2)
+    p = subprocess.run(['make', '--no-print-directory', '-n', 'install', 'DESTDIR=/stage'], cwd=bld, env=env,
+                       capture_output=True, text=True, timeout=120)
+    obs['install'] = sorted(l for l in p.stdout.split('\n') if '/stage' in l)
+    obs['install_rc'] = p.returncode
+    obs['makefile'] = mk
+    obs['compdb'] = os.path.exists(os.path.join(bld, 'compile_commands.json'))
+    return obs
+
+
+def run_persist_case(rep, case, d):
+    """Returns the number of failures reported."""
+    src, bld = os.path.join(d, 'src'), os.path.join(d, 'bld')
+    os.makedirs(src)
+    files = dict(PC_FILES)
+    files[FN_OPTS], files[FN_BUILD] = PC_OPTS, PC_BUILD
+    tcfile = None
+    if case['toolchain']:
+        tcfile = os.path.join(d, 'tc.bfg')
+        with open(tcfile, 'w') as f:
+            f.write(toolchain_text(case['toolchain']))
+    for k, v in files.items():
+        with open(os.path.join(src, k), 'w') as f:
+            f.write(v)
+    env = common.impl_env()
+    env.pop('DESTDIR', None)
+    args = ['--%s=%s' % (k.replace('_', '-'), v) for k, v in sorted(case['cmd_dirs'].items())]
+    args += case['builtin_args'] + case['user_args']
+    bad = 0
+
+    def fail(what, extra):
+        nonlocal bad
+        bad += 1
+        rep.fail('configure-time values across regenerations: %s (configure arguments %r, toolchain file %r)' % (
+            what, args, toolchain_text(case['toolchain']) if tcfile else None),
+            dict(case, **extra), classes=('args-not-persistent',))
+
+    p1 = subprocess.run(['bfg9000', 'configure-into', src, bld, '--backend=make', '--no-resolve-packages'] +
+                        (['--toolchain', tcfile] if tcfile else []) + args,
+                        cwd=d, env=env, capture_output=True, text=True, timeout=120)
+    argv1 = [l for l in p1.stdout.split('\n') if l.startswith('@@C19')]
+    if p1.returncode != 0 or not argv1:
+        fail('the first configure failed (exit %d)' % p1.returncode, {'output': (p1.stdout + p1.stderr)[-1500:]})
+        return bad
+    first = observe_config(bld, env)
+    # the command line wins over the toolchain file, the toolchain file over the platform default
+    for k in INSTALL_KEYS:
+        want = case['cmd_dirs'].get(k) or (case['toolchain'] or {}).get('install_dirs', {}).get(k)
+        got = first['dirs'].get(k)
+        if want is not None and (got is None or got.replace('\\ ', ' ').replace("'", '') != want):
+            fail('after the first configure the Makefile has %s := %r, expected %r' % (k, got, want), {'step': 'configure'})
+    if first['install_rc'] != 0 or len(first['install']) < 5:
+        fail('make -n install after the first configure: exit %d, %d copy commands' % (
+            first['install_rc'], len(first['install'])), {'step': 'configure'})
+        return bad
+    for n, step in enumerate(case['steps']):
+        if step.startswith('touch'):
+            target = {'touch-build': os.path.join(src, FN_BUILD), 'touch-options': os.path.join(src, FN_OPTS),
+                      'touch-toolchain': tcfile}[step]
+            st = os.stat(os.path.join(bld, 'Makefile')).st_mtime_ns
+            t = max(st, os.stat(target).st_mtime_ns) + 20_000_000
+            os.utime(target, ns=(t, t))
+            p = subprocess.run(['make', '--no-print-directory', 'Makefile'], cwd=bld, env=env, capture_output=True,
+                               text=True, timeout=120)
+            must_print = step != 'touch-toolchain'
+        else:
+            p = subprocess.run(['bfg9000', 'regenerate'] + (['--lazy'] if step == 'regenerate-lazy' else []) + [bld],
+                               cwd=d, env=env, capture_output=True, text=True, timeout=120)
+            must_print = step == 'regenerate'
+        where = 'step %d (%s) of %r' % (n + 1, step, case['steps'])
+        argv2 = [l for l in p.stdout.split('\n') if l.startswith('@@C19')]
+        if p.returncode != 0:
+            fail('%s failed with exit %d' % (where, p.returncode), {'step': n, 'output': (p.stdout + p.stderr)[-1500:]})
+            return bad
+        if (argv2 or must_print) and argv2 != argv1:
+            fail('%s: the script saw argv %r, at configure time %r' % (where, argv2, argv1), {'step': n})
+        now = observe_config(bld, env)
+        for what in ('dirs', 'install', 'flags', 'compdb', 'makefile'):
+            if now[what] != first[what]:
+                if what == 'dirs':
+                    det = {k: (first['dirs'].get(k), now['dirs'].get(k)) for k in INSTALL_KEYS
+                           if first['dirs'].get(k) != now['dirs'].get(k)}
+                    msg = 'install directories changed (configure time, now): %r' % (det,)
+                elif what == 'install':
+                    msg = 'make -n install copies %r, after the first configure %r' % (
+                        [l for l in now['install'] if l not in first['install']][:3],
+                        [l for l in first['install'] if l not in now['install']][:3])
+                elif what == 'makefile':
+                    a, b = first['makefile'].split('\n'), now['makefile'].split('\n')
+                    msg = 'the Makefile differs from the one of the first configure: %r' % (
+                        [(x, y) for x, y in zip(a, b) if x != y][:3] or (len(a), len(b)),)
+                else:
+                    msg = '%s changed from %r to %r' % (what, first[what], now[what])
+                fail('%s: %s' % (where, msg), {'step': n, 'observation': what})
+                break
+    return bad
+
+
+# every run starts with the full combination: a toolchain file proposing directories that the command line also gives
+PC_DIRECTED = [{'kind': 'persist-config',
+                'toolchain': {'install_dirs': {'prefix': '/opt/tc-prefix', 'bindir': '/opt/tc/bindir', 'mandir': '/opt/tc/mandir'},
+                              'environ': {'PC_VAR': 'from toolchain'}, 'compile_options': ['-O1', '-DTC=1'],
+                              'link_options': None},
+                'cmd_dirs': {'prefix': '/opt/cmd-prefix', 'bindir': '/opt/cmd/bindir', 'datadir': '/opt/cmd/datadir'},
+                'builtin_args': ['--enable-static'], 'user_args': ['--x-name=Bob', '--disable-fast', '--with-zlib'],
+                'steps': ['touch-build', 'regenerate', 'touch-options']}]
+
+
+def stage_persist_config(rep, rng, n, cases=()):
+    """system level: every value given at configure time - installation directories on the command line and from the
+    toolchain file, built-in options, project-defined arguments - is what the build files produced by every later
+    regeneration use (make after a modified .bfg / toolchain file; bfg9000 regenerate)"""
+    bad = 0
+    d0 = common.scratch('c19q')
+    try:
+        for i in range(n):
+            case = cases[i] if i < len(cases) else PC_DIRECTED[i - len(cases)] if i - len(cases) < len(PC_DIRECTED) \
+                else gen_persist_case(rng, rep)
+            d = os.path.join(d0, 'h%d' % i)
+            os.makedirs(d)
+            rep.case('persist-config:' + json.dumps(case, sort_keys=True),
+                     bool(case['toolchain'] and case['toolchain']['install_dirs'] and case['cmd_dirs']))
+            rep.traces += 1
+            bad += run_persist_case(rep, case, d)
+            shutil.rmtree(d, ignore_errors=True)
+    finally:
+        shutil.rmtree(d0, ignore_errors=True)
+    rep.stage('system:persist-config', histories=n, failures=bad)
+    return bad
+
+
 # builtins that take an explicit output name: the name is also given with a directory part and - the documented form for a
 # target that belongs next to the submodule's directory - with a leading ../
 NAMED_OUTPUTS = [
@@ -1569,6 +1782,7 @@ def run(rep):
     stage_siblings(rep, rng, 200 if thorough else 30)
     stage_real_configure(rep, rng, 40 if thorough else 3, bi_build)
     stage_persist(rep, rng, 8 if thorough else 1)
+    stage_persist_config(rep, rng, 60 if thorough else 10)
 
 
 def replay(rep, path):
@@ -1587,6 +1801,9 @@ def replay(rep, path):
                 rep.fail(what, {'tree': t.to_json(), 'trace': log, 'end': end}, classes=classes)
         finally:
             shutil.rmtree(d, ignore_errors=True)
+        return
+    if r.get('kind') == 'persist-config':
+        stage_persist_config(rep, random.Random(0), 1, [r])
         return
     if r.get('kind') == 'siblings':
         if not run_sibling_project(rep, r['project']):
